@@ -19,6 +19,9 @@ Model/RdataLite.vos Model/RdataLite.vok Model/RdataLite.required_vos: Model/Rdat
 Model/Reader.vo Model/Reader.glob Model/Reader.v.beautified Model/Reader.required_vo: Model/Reader.v Model/NameWire.vo
 Model/Reader.vio: Model/Reader.v Model/NameWire.vio
 Model/Reader.vos Model/Reader.vok Model/Reader.required_vos: Model/Reader.v Model/NameWire.vos
+Model/Server.vo Model/Server.glob Model/Server.v.beautified Model/Server.required_vo: Model/Server.v Model/Reader.vo Model/RdataLite.vo
+Model/Server.vio: Model/Server.v Model/Reader.vio Model/RdataLite.vio
+Model/Server.vos Model/Server.vok Model/Server.required_vos: Model/Server.v Model/Reader.vos Model/RdataLite.vos
 Proofs/NameWireP.vo Proofs/NameWireP.glob Proofs/NameWireP.v.beautified Proofs/NameWireP.required_vo: Proofs/NameWireP.v Base/ListX.vo Model/NameWire.vo Spec/NameWireS.vo Spec/NameRepr.vo
 Proofs/NameWireP.vio: Proofs/NameWireP.v Base/ListX.vio Model/NameWire.vio Spec/NameWireS.vio Spec/NameRepr.vio
 Proofs/NameWireP.vos Proofs/NameWireP.vok Proofs/NameWireP.required_vos: Proofs/NameWireP.v Base/ListX.vos Model/NameWire.vos Spec/NameWireS.vos Spec/NameRepr.vos
@@ -31,6 +34,24 @@ Proofs/RdataLiteP.vos Proofs/RdataLiteP.vok Proofs/RdataLiteP.required_vos: Proo
 Proofs/ReaderP.vo Proofs/ReaderP.glob Proofs/ReaderP.v.beautified Proofs/ReaderP.required_vo: Proofs/ReaderP.v Base/ListX.vo Model/NameWire.vo Model/Reader.vo Spec/NameWireS.vo Spec/NameRepr.vo Spec/ReaderS.vo Proofs/NameWireP.vo
 Proofs/ReaderP.vio: Proofs/ReaderP.v Base/ListX.vio Model/NameWire.vio Model/Reader.vio Spec/NameWireS.vio Spec/NameRepr.vio Spec/ReaderS.vio Proofs/NameWireP.vio
 Proofs/ReaderP.vos Proofs/ReaderP.vok Proofs/ReaderP.required_vos: Proofs/ReaderP.v Base/ListX.vos Model/NameWire.vos Model/Reader.vos Spec/NameWireS.vos Spec/NameRepr.vos Spec/ReaderS.vos Proofs/NameWireP.vos
+Proofs/ServerP.vo Proofs/ServerP.glob Proofs/ServerP.v.beautified Proofs/ServerP.required_vo: Proofs/ServerP.v Base/ListX.vo Model/NameWire.vo Model/Reader.vo Model/RdataLite.vo Model/Server.vo Proofs/NameWireP.vo Proofs/ReaderP.vo Proofs/RdataLiteP.vo
+Proofs/ServerP.vio: Proofs/ServerP.v Base/ListX.vio Model/NameWire.vio Model/Reader.vio Model/RdataLite.vio Model/Server.vio Proofs/NameWireP.vio Proofs/ReaderP.vio Proofs/RdataLiteP.vio
+Proofs/ServerP.vos Proofs/ServerP.vok Proofs/ServerP.required_vos: Proofs/ServerP.v Base/ListX.vos Model/NameWire.vos Model/Reader.vos Model/RdataLite.vos Model/Server.vos Proofs/NameWireP.vos Proofs/ReaderP.vos Proofs/RdataLiteP.vos
+Props/C01.vo Props/C01.glob Props/C01.v.beautified Props/C01.required_vo: Props/C01.v Base/ListX.vo Model/NameWire.vo Model/Reader.vo Model/RdataLite.vo Model/Server.vo Proofs/ReaderP.vo Proofs/ServerP.vo
+Props/C01.vio: Props/C01.v Base/ListX.vio Model/NameWire.vio Model/Reader.vio Model/RdataLite.vio Model/Server.vio Proofs/ReaderP.vio Proofs/ServerP.vio
+Props/C01.vos Props/C01.vok Props/C01.required_vos: Props/C01.v Base/ListX.vos Model/NameWire.vos Model/Reader.vos Model/RdataLite.vos Model/Server.vos Proofs/ReaderP.vos Proofs/ServerP.vos
+Props/C03.vo Props/C03.glob Props/C03.v.beautified Props/C03.required_vo: Props/C03.v Base/ListX.vo Model/NameWire.vo Model/Reader.vo Model/RdataLite.vo Model/Server.vo Spec/NameWireS.vo Spec/NameRepr.vo Spec/ReaderS.vo Proofs/ReaderP.vo Proofs/ServerP.vo
+Props/C03.vio: Props/C03.v Base/ListX.vio Model/NameWire.vio Model/Reader.vio Model/RdataLite.vio Model/Server.vio Spec/NameWireS.vio Spec/NameRepr.vio Spec/ReaderS.vio Proofs/ReaderP.vio Proofs/ServerP.vio
+Props/C03.vos Props/C03.vok Props/C03.required_vos: Props/C03.v Base/ListX.vos Model/NameWire.vos Model/Reader.vos Model/RdataLite.vos Model/Server.vos Spec/NameWireS.vos Spec/NameRepr.vos Spec/ReaderS.vos Proofs/ReaderP.vos Proofs/ServerP.vos
+Props/C07.vo Props/C07.glob Props/C07.v.beautified Props/C07.required_vo: Props/C07.v Base/ListX.vo Model/NameWire.vo Model/Reader.vo Model/RdataLite.vo Model/Server.vo Proofs/ServerP.vo
+Props/C07.vio: Props/C07.v Base/ListX.vio Model/NameWire.vio Model/Reader.vio Model/RdataLite.vio Model/Server.vio Proofs/ServerP.vio
+Props/C07.vos Props/C07.vok Props/C07.required_vos: Props/C07.v Base/ListX.vos Model/NameWire.vos Model/Reader.vos Model/RdataLite.vos Model/Server.vos Proofs/ServerP.vos
+Props/C08.vo Props/C08.glob Props/C08.v.beautified Props/C08.required_vo: Props/C08.v Base/ListX.vo Model/NameWire.vo Model/Reader.vo Model/RdataLite.vo Model/Server.vo Proofs/ReaderP.vo Proofs/ServerP.vo
+Props/C08.vio: Props/C08.v Base/ListX.vio Model/NameWire.vio Model/Reader.vio Model/RdataLite.vio Model/Server.vio Proofs/ReaderP.vio Proofs/ServerP.vio
+Props/C08.vos Props/C08.vok Props/C08.required_vos: Props/C08.v Base/ListX.vos Model/NameWire.vos Model/Reader.vos Model/RdataLite.vos Model/Server.vos Proofs/ReaderP.vos Proofs/ServerP.vos
+Props/C09.vo Props/C09.glob Props/C09.v.beautified Props/C09.required_vo: Props/C09.v Base/ListX.vo Model/NameWire.vo Model/Reader.vo Model/RdataLite.vo Model/Server.vo Proofs/ReaderP.vo Proofs/ServerP.vo
+Props/C09.vio: Props/C09.v Base/ListX.vio Model/NameWire.vio Model/Reader.vio Model/RdataLite.vio Model/Server.vio Proofs/ReaderP.vio Proofs/ServerP.vio
+Props/C09.vos Props/C09.vok Props/C09.required_vos: Props/C09.v Base/ListX.vos Model/NameWire.vos Model/Reader.vos Model/RdataLite.vos Model/Server.vos Proofs/ReaderP.vos Proofs/ServerP.vos
 Props/C14.vo Props/C14.glob Props/C14.v.beautified Props/C14.required_vo: Props/C14.v Base/ListX.vo Model/NameWire.vo Spec/NameWireS.vo Spec/NameRepr.vo Proofs/NameWireP.vo Proofs/NameWireSP.vo
 Props/C14.vio: Props/C14.v Base/ListX.vio Model/NameWire.vio Spec/NameWireS.vio Spec/NameRepr.vio Proofs/NameWireP.vio Proofs/NameWireSP.vio
 Props/C14.vos Props/C14.vok Props/C14.required_vos: Props/C14.v Base/ListX.vos Model/NameWire.vos Spec/NameWireS.vos Spec/NameRepr.vos Proofs/NameWireP.vos Proofs/NameWireSP.vos
